@@ -171,7 +171,16 @@ class World:
             return mapping[t]
         if t[0] in ("int", "str", "bytes", "enum", "param", "obj", "zst", "static", "fnref", "top"):
             return t
-        return tuple(self.subst(x, mapping) if isinstance(x, tuple) else x for x in t)
+        r = tuple(self.subst(x, mapping) if isinstance(x, tuple) else x for x in t)
+        # a field of a value that has just become a literal aggregate (a small struct / tuple passed as an argument) is that component
+        if r[0] == "field" and isinstance(r[1], tuple) and r[1] and r[1][0] == "agg":
+            agg = r[1]
+            names = agg[3] if len(agg) > 3 and agg[3] else None
+            if names and r[2] in names:
+                return agg[2][list(names).index(r[2])]
+            if not names and str(r[2]).isdigit() and int(r[2]) < len(agg[2]):
+                return agg[2][int(r[2])]
+        return r
 
     def bind_params(self, t, fnpath, args):
         mapping = {("param", fnpath, i + 1): a for i, a in enumerate(args)}
